@@ -18,35 +18,45 @@ func ruleLayoutBinary(c *Ctx) {
 		recv := recvObj(p, fd)
 		names := map[types.Object]string{recv: "d"}
 		body := fd.Body.List
-		okShape := len(body) == 18
+		okShape := len(body) >= 18
 		var dataObj types.Object
 		if okShape {
 			as, ok := body[0].(*ast.AssignStmt)
 			okShape = ok && as.Tok == token.DEFINE && len(as.Lhs) == 1 && len(as.Rhs) == 1
 			if okShape {
 				dataObj = p.objOf(as.Lhs[0])
-				env := p.newCanonEnv(fd)
-				okShape = env.canon(as.Rhs[0]) == "call(builtin.make;?expr,K(16))" || isMakeBytes(p, as.Rhs[0], 16)
+				okShape = isMakeBytes(p, as.Rhs[0], 16)
 			}
 		}
 		if okShape {
-			ret, ok := body[17].(*ast.ReturnStmt)
+			ret, ok := body[len(body)-1].(*ast.ReturnStmt)
 			okShape = ok && len(ret.Results) == 2 && p.objOf(ret.Results[0]) == dataObj && p.exprStr(ret.Results[1]) == "nil"
 		}
 		if !okShape {
-			c.undecided("marshal.shape", fd, "MarshalBinary must be: data := make([]byte, 16); 16 stores; return data, nil — nothing else may touch the data")
+			c.undecided("marshal.shape", fd, "MarshalBinary must be: data := make([]byte, 16); straight-line stores; return data, nil - nothing else may touch the data")
 		} else {
-			c.ok("marshal.shape", fd, "body is make(16) + 16 indexed stores + return: nothing else can influence the bytes")
 			seen := map[int64]bool{}
-			for _, s := range body[1:17] {
+			env := &bvEnv{p: p, vars: map[types.Object]bitvec{}}
+			env.inputs = p.leafInputs(names, nil, nil)
+			shapeOK := true
+			for _, s := range body[1 : len(body)-1] {
 				as, ok := s.(*ast.AssignStmt)
-				if !ok || as.Tok != token.ASSIGN || len(as.Lhs) != 1 || len(as.Rhs) != 1 {
-					c.undecided("marshal.store", s, "statement is not a plain indexed store")
+				if !ok || len(as.Lhs) != 1 || len(as.Rhs) != 1 {
+					shapeOK = false
 					continue
 				}
-				ix, ok := as.Lhs[0].(*ast.IndexExpr)
-				if !ok || p.objOf(ix.X) != dataObj {
-					c.undecided("marshal.store", s, "store target is not data[k]")
+				ix, isIx := as.Lhs[0].(*ast.IndexExpr)
+				if !isIx {
+					// a temporary
+					if o := p.objOf(as.Lhs[0]); o != nil && (as.Tok == token.DEFINE || as.Tok == token.ASSIGN) {
+						env.vars[o] = env.eval(as.Rhs[0])
+					} else {
+						shapeOK = false
+					}
+					continue
+				}
+				if as.Tok != token.ASSIGN || p.objOf(ix.X) != dataObj {
+					shapeOK = false
 					continue
 				}
 				k, ok := p.constInt64(ix.Index)
@@ -55,8 +65,6 @@ func ruleLayoutBinary(c *Ctx) {
 					continue
 				}
 				seen[k] = true
-				env := &bvEnv{p: p, vars: map[types.Object]bitvec{}}
-				env.inputs = p.leafInputs(names, nil, nil)
 				got := env.eval(as.Rhs[0])
 				src, base := "d.hi", int(56-8*k)
 				if k >= 8 {
@@ -66,6 +74,7 @@ func ruleLayoutBinary(c *Ctx) {
 				c.check(got == want, fmt.Sprintf("marshal.byte[%d]", k), s, fmt.Sprintf("= %s[%d..%d]", src, base+7, base),
 					fmt.Sprintf("MarshalBinary byte %d is %s; big-endian hi‖lo requires %s", k, got.describe(), want.describe()))
 			}
+			c.check(shapeOK, "marshal.shape", fd, "body is make(16) + straight-line stores + return: nothing else can influence the bytes", "MarshalBinary contains statements other than byte stores and temporaries")
 			c.check(len(seen) == 16, "marshal.complete", fd, "all 16 bytes written", fmt.Sprintf("only %d distinct bytes written", len(seen)))
 		}
 	}
@@ -74,35 +83,76 @@ func ruleLayoutBinary(c *Ctx) {
 		recv := recvObj(p, fd)
 		ps := paramObjs(p, fd)
 		body := fd.Body.List
-		if len(ps) != 1 || len(body) != 19 {
-			c.undecided("unmarshal.shape", fd, "UnmarshalBinary must be: length guard; 16 reads; *d = Decimal{lo, hi}; return nil")
+		if len(ps) != 1 || len(body) < 2 {
+			c.undecided("unmarshal.shape", fd, "UnmarshalBinary must be: length guard; reads; *d = Decimal{lo, hi}; return nil")
 			return
 		}
 		data := ps[0]
-		// guard first
-		g, ok := body[0].(*ast.IfStmt)
-		okGuard := ok && g.Init == nil && g.Else == nil
-		if okGuard {
-			env := p.newCanonEnv(fd)
-			okGuard = env.canon(g.Cond) == "(K(16)!=call(builtin.len;P0))"
-			if okGuard {
-				okGuard = len(g.Body.List) == 1
-				if okGuard {
-					r, ok := g.Body.List[0].(*ast.ReturnStmt)
-					okGuard = ok && len(r.Results) == 1 && p.exprStr(r.Results[0]) != "nil" && p.constOf(r.Results[0]) == nil
+		env0 := p.newCanonEnv(fd)
+		isErr := func(s ast.Stmt) bool {
+			r, ok := s.(*ast.ReturnStmt)
+			return ok && len(r.Results) == 1 && p.exprStr(r.Results[0]) != "nil" && p.constOf(r.Results[0]) == nil
+		}
+		// two accepted guard shapes
+		var core []ast.Stmt
+		okGuard := false
+		if g, ok := body[0].(*ast.IfStmt); ok && g.Init == nil && g.Else == nil {
+			x, op, k, okc := p.normCmp(g.Cond)
+			if okc && k.IsInt64() && k.Int64() == 16 && env0.canon(x) == "call(builtin.len;P0)" {
+				switch op {
+				case token.NEQ: // if len != 16 { return err }; core
+					if len(g.Body.List) == 1 && isErr(g.Body.List[0]) {
+						okGuard, core = true, body[1:]
+					}
+				case token.EQL: // if len == 16 { core; return nil }; return err
+					if len(body) == 2 && isErr(body[1]) {
+						okGuard, core = true, g.Body.List
+					}
 				}
 			}
 		}
-		c.check(okGuard, "unmarshal.guard", body[0], "len(data) != 16 returns a non-nil error before any read", "UnmarshalBinary must reject every length other than 16 before reading or storing anything")
+		c.check(okGuard, "unmarshal.guard", body[0], "every length other than 16 returns a non-nil error before any read", "UnmarshalBinary must reject every length other than 16 before reading or storing anything")
+		if !okGuard || len(core) < 2 {
+			c.undecided("unmarshal.shape", fd, "UnmarshalBinary must be: length guard; reads; *d = Decimal{lo, hi}; return nil")
+			return
+		}
 		names := map[types.Object]string{data: "data"}
 		env := &bvEnv{p: p, vars: map[types.Object]bitvec{}}
 		env.inputs = p.leafInputs(names, map[string]int{}, nil)
 		okShape := true
-		for _, s := range body[1:17] {
+		var words []bitvec
+		nStore := 0
+		for i, s := range core {
+			if i == len(core)-1 {
+				r, ok := s.(*ast.ReturnStmt)
+				if !ok || len(r.Results) != 1 || p.exprStr(r.Results[0]) != "nil" {
+					okShape = false
+				}
+				continue
+			}
 			as, ok := s.(*ast.AssignStmt)
 			if !ok || len(as.Lhs) != 1 || len(as.Rhs) != 1 {
 				okShape = false
 				break
+			}
+			if star, ok := as.Lhs[0].(*ast.StarExpr); ok {
+				// the single store, which must be the last statement before `return nil`
+				cl, okc := as.Rhs[0].(*ast.CompositeLit)
+				if p.objOf(star.X) != recv || !okc || len(cl.Elts) != 2 || as.Tok != token.ASSIGN || i != len(core)-2 {
+					okShape = false
+					break
+				}
+				nStore++
+				byName := map[string]bitvec{}
+				for j, el := range cl.Elts {
+					if kv, isKV := el.(*ast.KeyValueExpr); isKV {
+						byName[p.exprStr(kv.Key)] = env.eval(kv.Value)
+					} else {
+						byName[[]string{"lo", "hi"}[j]] = env.eval(el)
+					}
+				}
+				words = []bitvec{byName["lo"], byName["hi"]}
+				continue
 			}
 			o := p.objOf(as.Lhs[0])
 			if o == nil {
@@ -110,7 +160,7 @@ func ruleLayoutBinary(c *Ctx) {
 				break
 			}
 			switch as.Tok {
-			case token.DEFINE:
+			case token.DEFINE, token.ASSIGN:
 				env.vars[o] = env.eval(as.Rhs[0])
 			case token.OR_ASSIGN:
 				env.vars[o] = env.vars[o].or(env.eval(as.Rhs[0]))
@@ -118,36 +168,14 @@ func ruleLayoutBinary(c *Ctx) {
 				okShape = false
 			}
 		}
-		st, ok1 := body[17].(*ast.AssignStmt)
-		ret, ok2 := body[18].(*ast.ReturnStmt)
-		if !okShape || !ok1 || !ok2 || len(ret.Results) != 1 || p.exprStr(ret.Results[0]) != "nil" {
-			c.undecided("unmarshal.shape", fd, "UnmarshalBinary must be: length guard; 16 or-shift reads; *d = Decimal{lo, hi}; return nil")
+		if !okShape || nStore != 1 || len(words) != 2 {
+			c.undecided("unmarshal.shape", fd, "UnmarshalBinary must be: length guard; straight-line reads into locals; one store *d = Decimal{lo, hi}; return nil")
 			return
 		}
-		c.ok("unmarshal.shape", fd, "body is guard + 16 or-shift reads + one store + return nil")
-		okStore := st.Tok == token.ASSIGN && len(st.Lhs) == 1 && len(st.Rhs) == 1
-		var words []bitvec
-		if okStore {
-			star, ok := st.Lhs[0].(*ast.StarExpr)
-			okStore = ok && p.objOf(star.X) == recv
-			cl, ok := st.Rhs[0].(*ast.CompositeLit)
-			okStore = okStore && ok && len(cl.Elts) == 2
-			if okStore {
-				for _, el := range cl.Elts {
-					if _, kv := el.(*ast.KeyValueExpr); kv {
-						okStore = false
-					}
-					words = append(words, env.eval(el))
-				}
-			}
-		}
-		if !okStore {
-			c.undecided("unmarshal.store", st, "the single store must be *d = Decimal{lo, hi}")
-			return
-		}
+		c.ok("unmarshal.shape", fd, "body is guard + straight-line reads + one store + return nil")
 		for w, name := range []string{"lo", "hi"} {
 			var runs []run
-			for j := 0; j < 8; j++ { // byte j of the word (little-endian position) comes from data[...]
+			for j := 0; j < 8; j++ {
 				k := 15 - j
 				if name == "hi" {
 					k = 7 - j
@@ -155,11 +183,10 @@ func ruleLayoutBinary(c *Ctx) {
 				runs = append(runs, run{8*j + 7, 8 * j, fmt.Sprintf("data%d", k), 0})
 			}
 			want := expectVec(runs, nil)
-			c.check(words[w] == want, "unmarshal.word."+name, st, name+" assembled big-endian from data",
+			c.check(words[w] == want, "unmarshal.word."+name, fd, name+" assembled big-endian from data",
 				fmt.Sprintf("UnmarshalBinary builds %s = %s; the inverse of the writer requires %s", name, words[w].describe(), want.describe()))
 		}
 		for k := 0; k < 16; k++ {
-			// one obligation per table entry: byte k of the reader is the inverse of byte k of the writer
 			w, j := 1, 7-k
 			if k >= 8 {
 				w, j = 0, 15-k
@@ -171,7 +198,7 @@ func ruleLayoutBinary(c *Ctx) {
 					okb = false
 				}
 			}
-			c.check(okb, fmt.Sprintf("unmarshal.byte[%d]", k), st, "inverse of the writer's table entry", fmt.Sprintf("reader byte %d is not the inverse of writer byte %d", k, k))
+			c.check(okb, fmt.Sprintf("unmarshal.byte[%d]", k), fd, "inverse of the writer's table entry", fmt.Sprintf("reader byte %d is not the inverse of writer byte %d", k, k))
 		}
 	}
 }
